@@ -683,4 +683,12 @@ example : batchRunMs1 (fun g (f : List Nat) => f.map (fun l => (g, l))) (fun s =
       (fun l => .node (.leaf (l.take 2)) (.leaf (l.drop 2))) 2 [[1, 1, 2], [2, 1], [1]]
     = some { features := [(0, 2), (1, 2)], ms1 := .noMobility [(0, 1), (0, 1), (1, 1), (2, 1)] } := by decide
 
+/-- **C11.allEqualFirst_iff** — the executable clause of the `alignpools` op (`bad:align_thread_dependent`)
+says exactly: the reply of EVERY pool equals the reply of the first (1-thread) pool. -/
+theorem allEqualFirst_iff {ρ : Type} [BEq ρ] [LawfulBEq ρ] (r : ρ) (rs : List ρ) :
+    allEqualFirst (r :: rs) = true ↔ ∀ x ∈ r :: rs, x = r := by
+  simp [allEqualFirst]
+
+example : allEqualFirst [[1, 2], [1, 2], [1, 2]] = true ∧ allEqualFirst [[1, 2], [1, 3]] = false := by decide
+
 end Sage.C11
